@@ -237,8 +237,10 @@ theorem evalX_ctx (E : Env) : ∀ (e : Expr) (ap : Bool) (st : St) r st',
     dsimp only at h
     split at h
     · cases h; exact i2.trans i1
-    · obtain ⟨⟨v, st3⟩, h3, h⟩ := bind_ok h
-      cases h; exact (callFunction_ctx h3).trans (i2.trans i1)
+    · split at h
+      · cases h; exact i2.trans i1
+      · obtain ⟨⟨v, st3⟩, h3, h⟩ := bind_ok h
+        cases h; exact (callFunction_ctx h3).trans (i2.trans i1)
   | .test e name args, ap, st, r, st', h =>
     test_ctx E (fun ap st r st' => evalX_ctx E e ap st r st')
       (fun st r st' => evalArgs_ctx E args st r st') h
@@ -1371,7 +1373,7 @@ theorem route_mcall_function {E : Env} {ap : Bool} {obj : Expr} {nm : Bytes} {ar
   simp only [evalX, allowedCheck, hallow, Bool.and_false, Bool.false_eq_true, if_false, ok_bind, hobj, hargs]
   cases o with
   | map kvs => exact absurd rfl (hnomod kvs)
-  | _ => simp only [callFunction_macro hplain hmac1, ok_bind, pure_eq_ok]
+  | _ => simp only [hmac1, ok_bind, pure_eq_ok]
 
 /-! ### evaluating a name: a variable shadows a macro of the same name -/
 
